@@ -52,6 +52,20 @@ def gen_scenario(rng, sid, big=False, faults=True):
     L += ["m quiesce", "m shutdown", "m sleep 20000", "m shutdown_wait", "m destroy", "m reset"]
     return "\n".join(L) + "\n", {"n": n}
 
+def faildirect_scenario(rng, sid):
+    """a queue write fails (EAGAIN / EPIPE) for ONE target of a broadcast that carries FAIL_DIRECT: that callback is delivered
+    directly, so it counts as sent, the count-down sees it once, and SYNC returns only after every callback ended"""
+    n = rng.choice([2, 3, 4])
+    base = (sid % 400) * 100 + 60
+    L = ["m pool %d 0" % n, "m start 0", "m waitrun"]
+    for k, f in enumerate([SYNC | FAIL_DIRECT, FAIL_DIRECT, SYNC | USLEEP | FAIL_DIRECT | FORCE]):
+        L += ["m wfault %d 1 %d" % (rng.randrange(n), rng.choice([11, 32])), "m bsend %d %d" % (f, base + k), "m quiesce"]
+    w = rng.randrange(n); others = [t for t in range(n) if t != w]
+    L += ["w%d cbsend %d %d 1" % (w, FAIL_DIRECT | rng.choice([0, SELF_SKIP, SELF_DIRECT]), base + 5),
+          "m wfault %d 1 %d" % (rng.choice(others), rng.choice([11, 32])), "m spawn w%d" % w, "m join w%d" % w, "m gatewait 1",
+          "m quiesce", "m shutdown", "m sleep 20000", "m shutdown_wait", "m destroy", "m reset"]
+    return "\n".join(L) + "\n", {"n": n, "faildirect": True}
+
 def prep(evs):
     evs = tp.rename_pvt(evs); sel = []
     for seg in c05.segments(evs):
@@ -91,7 +105,9 @@ def run(ctx):
         texts = []
         for _ in range(per_proc):
             sid += 1
-            t, m = gen_scenario(rng, sid, big=(not ctx.quick) or sid % 5 == 0); texts.append(t)
+            if sid % 10 == 4: t, m = faildirect_scenario(rng, sid)
+            else: t, m = gen_scenario(rng, sid, big=(not ctx.quick) or sid % 5 == 0)
+            texts.append(t)
         rc, out, evs = tp.run_scenario(exe, "".join(texts), d, ctx.seed + sid, "c10_%d" % sid, timeout=300)
         bad = [e for e in evs if e["e"] in ("Hang", "BadOp", "Crash")]
         if rc != 0 or bad:
